@@ -18,7 +18,7 @@ import (
 // TokenReader/MarshalXML/UnmarshalXML/Set/Get/Submit.
 //
 // Protocol lines (see lean/XmppModel/Driver/C19.lean; every string hex, a list
-// is the concatenation of "."+element):
+// is the concatenation of "."+element, an outer list of ","+element):
 //
 //	fenc <jidtab> <form>              -> <toks>         tokens a decoder sees for the form
 //	fdec <toks>                       -> <form> | ERR   the decoded form
@@ -214,10 +214,15 @@ func (fd formDesc) normal() formDesc {
 
 func hx(s string) string { return hex.EncodeToString([]byte(s)) }
 
-func encList(l []string) string {
+func encList(l []string) string { return encListSep(l, ".") }
+
+// encOuter encodes a list whose elements contain inner lists.
+func encOuter(l []string) string { return encListSep(l, ",") }
+
+func encListSep(l []string, sep string) string {
 	var sb strings.Builder
 	for _, s := range l {
-		sb.WriteString(".")
+		sb.WriteString(sep)
 		sb.WriteString(s)
 	}
 	return sb.String()
@@ -244,7 +249,7 @@ func (fd formDesc) enc() string {
 	for _, f := range fd.fields {
 		fs = append(fs, f.enc())
 	}
-	return hx(fd.title) + "/" + hx(fd.instr) + "/" + hx(fd.typ) + "/" + encList(fs)
+	return hx(fd.title) + "/" + hx(fd.instr) + "/" + hx(fd.typ) + "/" + encOuter(fs)
 }
 
 func (fd formDesc) jidTab(extra ...string) string {
@@ -257,6 +262,15 @@ func (fd formDesc) jidTab(extra ...string) string {
 		seen[s] = true
 		if n, ok := jidNorm(s); ok {
 			l = append(l, hx(s)+">"+hx(n))
+			if !seen[n] {
+				// the table is closed under normalisation (a normal form is re-parsed on submit)
+				seen[n] = true
+				if n2, ok2 := jidNorm(n); ok2 {
+					l = append(l, hx(n)+">"+hx(n2))
+				} else {
+					l = append(l, hx(n)+">!")
+				}
+			}
 		} else {
 			l = append(l, hx(s)+">!")
 		}
@@ -272,7 +286,7 @@ func (fd formDesc) jidTab(extra ...string) string {
 	if len(l) == 0 {
 		return "-"
 	}
-	return encList(l)
+	return encOuter(l)
 }
 
 // descOf reads a real form back into a description through the exported
@@ -298,13 +312,18 @@ func descOf(d *form.Data) (fd formDesc, ok bool) {
 		}
 	}()
 	seen := map[string]int{}
+	listVar := map[string]bool{}
 	d.ForFields(func(f form.FieldData) {
 		seen[f.Var]++
+		if isList(string(f.Type)) {
+			listVar[f.Var] = true
+		}
 	})
 	d.ForFields(func(f form.FieldData) {
 		g := fieldDesc{typ: string(f.Type), varName: f.Var, label: f.Label, desc: f.Desc, required: f.Required, values: append([]string(nil), f.Raw...)}
 		if opts, found := d.GetOptions(f.Var); found {
-			if seen[f.Var] > 1 && len(opts) > 0 {
+			// GetOptions answers for the first field of that name only
+			if seen[f.Var] > 1 && (listVar[f.Var] || len(opts) > 0) {
 				ok = false
 			}
 			for _, o := range opts {
@@ -313,17 +332,6 @@ func descOf(d *form.Data) (fd formDesc, ok bool) {
 		}
 		fd.fields = append(fd.fields, g)
 	})
-	for v, n := range seen {
-		if n > 1 {
-			// several fields share a variable: GetOptions answers for the first only
-			_ = v
-			for _, f := range fd.fields {
-				if len(f.opts) > 0 && seen[f.varName] > 1 {
-					ok = false
-				}
-			}
-		}
-	}
 	return fd, ok
 }
 
@@ -388,7 +396,7 @@ func encOps(ops []setOp) string {
 	for _, o := range ops {
 		l = append(l, o.enc())
 	}
-	return encList(l)
+	return encOuter(l)
 }
 
 var validJIDs = []string{"a@example.net", "example.net", "room@conference.example.net/nick", "", "user@example.net/r<&>"}
@@ -557,7 +565,9 @@ func formCase(c *ctx, sub uint64, bad bool, class string) {
 		}
 		if p.toks != nil {
 			bl := "bal " + common.EncToks(p.toks)
-			r.Line(bl, common.B(balancedToks(p.toks)))
+			if repr {
+				r.Line(bl, common.B(balancedToks(p.toks)))
+			}
 			if !balancedToks(p.toks) {
 				r.Fail("well-formed", "form.Data/TokenReader/unbalanced", append(lines, r.Prop+" "+bl), describe())
 			}
@@ -678,7 +688,9 @@ func formCase(c *ctx, sub uint64, bad bool, class string) {
 		return
 	}
 	bl := "bal " + common.EncToks(subToks)
-	r.Line(bl, common.B(balancedToks(subToks)))
+	if repr {
+		r.Line(bl, common.B(balancedToks(subToks)))
+	}
 	if !balancedToks(subToks) {
 		r.Fail("well-formed", "form.Data/Submit/unbalanced", append(lines, r.Prop+" "+bl), describe())
 	}
